@@ -343,10 +343,34 @@ func main() {
 		}(i)
 	}
 	wg.Wait()
-	for _, e := range errs {
-		if e != "" {
-			fatal(2, "worker failed (undecided, not a violation):\n%s", e)
+	// a shard that died or was stopped leaves the run undecided - unless another shard has already decided it:
+	// a finding reported by a shard that completed stands on its own (a change that makes the code under test
+	// loop or allocate without end typically shows as findings on some shards and stopped workers on others)
+	haveFinding := false
+	for _, r := range results {
+		if r != nil && len(r.Findings) > 0 {
+			haveFinding = true
 		}
+	}
+	var lostShards []string
+	for i, e := range errs {
+		if e != "" {
+			if !haveFinding {
+				fatal(2, "worker failed (undecided, not a violation):\n%s", e)
+			}
+			lostShards = append(lostShards, fmt.Sprintf("shard %d did not report (%s); what it explored is not counted", i, firstLineOf(e)))
+		}
+	}
+	if len(lostShards) > 0 {
+		var kept []*shardResult
+		for _, r := range results {
+			if r != nil {
+				kept = append(kept, r)
+			}
+		}
+		kept[0].Notes = append(kept[0].Notes, lostShards...)
+		kept[0].Exhaustive = false
+		results = kept
 	}
 	// merge
 	counts := map[string]int64{}
@@ -462,7 +486,9 @@ func main() {
 		violations++
 		h := sha256.Sum256([]byte(f.Prop + f.Sig + f.Msg))
 		path := filepath.Join(verifDir, "replays", fmt.Sprintf("%s-%s.json", id, hex.EncodeToString(h[:6])))
-		os.WriteFile(path, f.raw, 0o644)
+		if violations <= 24 {
+			os.WriteFile(path, f.raw, 0o644) // the shortest histories; more of the same class add nothing
+		}
 		if printed < 8 {
 			printed++
 			fmt.Printf("VIOLATION property=%s replay=%s\n", id, path)
@@ -470,7 +496,7 @@ func main() {
 		}
 	}
 	if violations > printed {
-		fmt.Printf("  (%d more violations of %s written to %s)\n", violations-printed, id, filepath.Join(verifDir, "replays"))
+		fmt.Printf("  (%d more violations of %s; the first 24 are in %s)\n", violations-printed, id, filepath.Join(verifDir, "replays"))
 	}
 	for i, f := range other {
 		if i >= 5 {
@@ -601,4 +627,11 @@ func uniq(ss []string) []string {
 		}
 	}
 	return out
+}
+
+func firstLineOf(s string) string {
+	if i := strings.IndexByte(s, '\n'); i >= 0 {
+		return s[:i]
+	}
+	return s
 }
